@@ -288,12 +288,24 @@ mod compat {
     use codespan_reporting::files::SimpleFile;
 
     pub fn position_to_offset(file: &SimpleFile<&str, &str>, pos: &lsp_types::Position) -> usize {
-        codespan_lsp::position_to_byte_index(
-            file,
-            (),
-            &lsp_types_old::Position::new(pos.line, pos.character),
-        )
-        .unwrap()
+        use codespan_reporting::files::Files;
+
+        let source = *file.source();
+        // a position after the end of a line or of the document denotes that end
+        let Ok(range) = file.line_range((), pos.line as usize) else {
+            return source.len();
+        };
+        let line = &source[range.clone()];
+        let line = line.strip_suffix('\n').unwrap_or(line);
+        let line = line.strip_suffix('\r').unwrap_or(line);
+        let mut character = 0;
+        for (offset, c) in line.char_indices() {
+            if character >= pos.character {
+                return range.start + offset;
+            }
+            character += c.len_utf16() as u32;
+        }
+        range.start + line.len()
     }
 
     pub fn span_to_range(file: &SimpleFile<&str, &str>, span: &Span) -> lsp_types::Range {
